@@ -68,7 +68,7 @@ ASSUMPTIONS = [
 ]
 TRUSTED_EXTRA = ["extractor E2 (Python ast walk over every nb.prange loop under pde/) establishes the kernel-shape hypothesis of the "
                  "schedule theorem statically; the schedule leg re-establishes it dynamically on logged element accesses"]
-MIN_LEGS = {"routes": 100, "threads": 9, "schedule": 15, "complex": 20, "setter": 60, "alias": 40}
+MIN_LEGS = {"routes": 100, "threads": 9, "schedule": 15, "complex": 20, "setter": 60, "alias": 40, "userbc": 30}
 
 CLS = c01.DIM and {"UnitGrid": "cart", "CartesianGrid": "cart", "PolarSymGrid": "polar", "SphericalSymGrid": "sph", "CylindricalSymGrid": "cyl"}
 OPS_BY_RANK = {0: ["laplace", "gradient", "gradient_squared"], 1: ["divergence", "vector_gradient", "vector_laplace"], 2: ["tensor_divergence"]}
@@ -929,6 +929,7 @@ def run(ctx):
 
     # ---- `out=` aliasing contract --------------------------------------------------------------------------
     alias_leg(ctx)
+    user_leg(ctx)
 
 
 # ------------------------------------------------------------------------------------------
@@ -1152,6 +1153,146 @@ def alias_leg(ctx):
 
 
 # ------------------------------------------------------------------------------------------
+# user-controlled conditions ({"type": "user"}, data through `args` at call time): every route must give what the ordinary
+# condition with the same data gives ("value" = Dirichlet, "derivative" = Neumann, "virtual_point" = the ghost value itself)
+def gen_user_case(rng):
+    nd = 1 if rng.random() < 0.5 else 2
+    shape = [rng.randint(2, 6) for _ in range(nd)]
+    bounds = []
+    for n_ in shape:
+        lo = rng.choice([-2.0, 0.0, 0.5])
+        bounds.append([lo, lo + n_ * rng.choice([0.25, 0.5, 1.0, 2.0])])
+    n_tot = int(np.prod(shape))
+    return {"bounds": bounds, "shape": shape, "data": [float(rng.randint(-9, 9)) for _ in range(n_tot)],
+            "target": rng.choice(["value", "derivative", "derivative", "virtual_point"]), "g": rng.randint(-8, 8) / 4,
+            "op": rng.choice(["laplace", "laplace", "gradient_squared"])}
+
+
+def user_case(case):
+    """routes for a user-controlled condition; dict name -> array or 'EXC ...' (+ 'ref': the ordinary condition)"""
+    import logging
+    import warnings
+    import pde
+    from pde import get_backend
+
+    logging.getLogger("pde").setLevel(logging.ERROR)
+    warnings.simplefilter("ignore")
+    try:
+        from pde.backends.numba.utils import numba_dict
+    except Exception:  # noqa
+        numba_dict = dict
+    grid = pde.CartesianGrid(case["bounds"], case["shape"])
+    shape = tuple(case["shape"])
+    nd = len(shape)
+    data = np.array(case["data"], dtype=float).reshape(shape)
+    tgt, g, opn = case["target"], float(case["g"]), case["op"]
+    user_bc = {"type": "user"}
+    out = {}
+    if tgt == "virtual_point":
+        full = np.full(tuple(n + 2 for n in shape), g)
+        full[(slice(1, -1),) * nd] = data
+        o = np.empty(shape)
+        try:
+            grid.make_operator_no_bc(opn, backend="scipy")(full, o)
+        except Exception:  # noqa  (scipy: uniform discretization only, not every operator)
+            grid.make_operator_no_bc(opn, backend="numba")(full, o)
+        out["ref"] = o
+    else:
+        out["ref"] = np.array(getattr(pde.ScalarField(grid, data.copy()), opn)({tgt: g}).data, dtype=float)
+
+    def attempt(name, fn):
+        try:
+            out[name] = np.array(fn(), dtype=float)
+        except Exception as e:  # noqa
+            out[name] = f"EXC {type(e).__name__}: {e}"[:300]
+
+    for bname in ("numpy", "numba", "scipy"):
+        try:
+            if opn not in get_backend(bname).get_registered_operators(grid):
+                continue
+        except Exception:  # noqa
+            continue
+        try:  # a backend that cannot build the operator for the ORDINARY condition on this grid is not a route here
+            grid.make_operator(opn, bc={"value": 0.0}, backend=bname)
+        except Exception as e:  # noqa
+            out[f"_skip backend {bname}"] = f"EXC {type(e).__name__}: {e}"[:300]
+            continue
+        wrap = numba_dict if bname == "numba" else dict
+        attempt(f"field.method(user, args, backend={bname})",
+                lambda bname=bname: getattr(pde.ScalarField(grid, data.copy()), opn)(user_bc, args={tgt: g}, backend=bname).data)
+        try:
+            b_op = grid.make_operator(opn, bc=user_bc, backend=bname)
+        except Exception as e:  # noqa
+            out[f"_skip make_operator({bname})"] = f"EXC {type(e).__name__}: {e}"[:300]
+            continue
+        attempt(f"make_operator({bname})(arr, args)", lambda b_op=b_op, wrap=wrap: b_op(data.copy(), args=wrap({tgt: g})))
+
+        def w_out(b_op=b_op, wrap=wrap):
+            o = np.full(shape, np.nan)
+            b_op(data.copy(), o, wrap({tgt: g}))
+            return o
+        attempt(f"make_operator({bname})(arr, out, args)", w_out)
+    for bname in ("numba",):
+        def setter_route(bname=bname):
+            bcs = grid.get_boundary_conditions(user_bc)
+            full = np.zeros(tuple(n + 2 for n in shape))
+            full[(slice(1, -1),) * nd] = data
+            wrap = numba_dict if bname == "numba" else dict
+            get_backend(bname).make_ghost_cell_setter(bcs)(full, args=wrap({tgt: g}))
+            o = np.empty(shape)
+            grid.make_operator_no_bc(opn, backend=bname)(full, o)
+            return o
+        attempt(f"ghost-cell setter({bname}) + make_operator_no_bc", setter_route)
+
+    def interp_route():
+        f = pde.ScalarField(grid, data.copy())
+        f.set_ghost_cells(user_bc, args={tgt: g})
+        return f.apply_operator(opn, bc=None).data
+    attempt("field.set_ghost_cells(user, args) + apply_operator(bc=None)", interp_route)
+    return out
+
+
+def judge_user(case, rr):
+    fails = []
+    if isinstance(rr, str) or isinstance(rr.get("ref"), str):
+        return [("worker", str(rr)[-300:], {"route": "user-worker", "symptom": "raised"})]
+    ref = rr["ref"]
+    scale = 1.0 + float(np.max(np.abs(ref))) if np.isfinite(ref).all() else 1.0
+    for name, arr in rr.items():
+        if name == "ref" or name.startswith("_skip"):
+            continue
+        if isinstance(arr, str):
+            fails.append((name, arr, {"route": name, "symptom": "raised-with-user-condition"}))
+        elif arr.shape != ref.shape or arr_far(arr, ref, 1e-10 * scale):
+            fails.append((name, {"user condition": [float(x) for x in arr.ravel()], "ordinary condition": [float(x) for x in ref.ravel()]},
+                          {"route": name, "symptom": "user-condition-differs-from-ordinary"}))
+    return fails
+
+
+def user_leg(ctx):
+    urng = ctx.sub_rng("userbc")
+    ucases = [gen_user_case(urng) for _ in range(ctx.budget(40, 400))]
+    res = run_many("harness.c03", "user_case", ucases, env={"NUMBA_DISABLE_JIT": "1"}, procs=12)
+    jit_ids = sorted(urng.sample(range(len(ucases)), min(ctx.budget(4, 30), len(ucases))))
+    res_j = dict(zip(jit_ids, run_many("harness.c03", "user_case", [ucases[i] for i in jit_ids], env={"NUMBA_DISABLE_JIT": "0"}, procs=6)))
+    for ci, c in enumerate(ucases):
+        for mode, rr in (("source", res[ci]), ("jit", res_j.get(ci))):
+            if rr is None:
+                continue
+            rec = dict(c, mode=mode)
+            ctx.count(rec, nontrivial=len(set(c["data"])) > 1, leg="userbc")
+            ctx.hist("userbc", f"{len(c['shape'])}d:{c['op']}:{c['target']}:{mode}")
+            ctx.impl_traces += 1
+            ctx.monitor_evals += 1
+            if isinstance(rr, dict):
+                ctx.hist("userbc-routes", str(sum(1 for k in rr if k != "ref" and not k.startswith("_skip"))))
+            for route, observed, fkey in judge_user(c, rr):
+                ctx.monitor_fail("userbc", dict(rec, route=route), observed,
+                                 "every route with a user-controlled condition gives what the ordinary condition with the same data gives",
+                                 f"route {route}: user-controlled condition ({c['target']}) differs from the ordinary condition", key=fkey)
+
+
+# ------------------------------------------------------------------------------------------
 def replay(ctx, rep):
     """re-run the recorded case of its leg on the real code (same inputs; routes: source semantics and, if a JIT route was
     involved, JIT; threads: the recorded thread count against 1 thread and the source run) and judge it with the monitor
@@ -1170,6 +1311,13 @@ def replay(ctx, rep):
         fails = judge_alias(case, rr)
         for f in fails:
             print("alias leg:", f[0], f[1])
+        return not still([f[2] for f in fails])
+    if leg == "userbc" and "shape" in c:
+        case = {k: c[k] for k in ("bounds", "shape", "data", "target", "g", "op")}
+        rr = run_many("harness.c03", "user_case", [case], env={"NUMBA_DISABLE_JIT": "0" if c.get("mode") == "jit" else "1"}, procs=1)[0]
+        fails = judge_user(case, rr)
+        for f in fails:
+            print("userbc leg:", f[0], f[1])
         return not still([f[2] for f in fails])
     if leg == "setter" and "packed" in c:
         case = c02.unpack(c["packed"])
